@@ -64,7 +64,11 @@ def check_consumer(chk: Check, repo: Repo) -> None:
             if n == "self.xknx.telegrams.task_done":
                 return [Outcome("DONE", None)]
             if n == "self.outgoing_queue.put_nowait":
-                arg = "None" if (c.args and isinstance(c.args[0], ast.Constant) and c.args[0].value is None) else ast.unparse(c.args[0])
+                if c.args and isinstance(c.args[0], ast.Constant) and c.args[0].value is None:
+                    arg = "None"
+                else:
+                    v = am_box["am"].ev(c.args[0], env, {})  # what is handed over, by value (not by the name of the local)
+                    arg = "telegram" if (tg is not None and v == tg) else f"other:{ast.unparse(c.args[0])}"
                 return [Outcome(f"HANDOFF({arg})", None)]
             if n == "self.outgoing_queue.join":
                 return [Outcome("JOIN_OUT", None)]
@@ -76,7 +80,9 @@ def check_consumer(chk: Check, repo: Repo) -> None:
                 return [Outcome("DECODE", None)]
             return None
 
+        am_box: dict = {}
         am = AbsMachine(cfg, exc, call_model, _enum_hook(repo, fi))
+        am_box["am"] = am
         paths = Explorer(cfg, repo, am.step).run(head, [head], {})
         for p in paths:
             tr = tuple(t for t in p.env.get("trace", ()) if not t.startswith("raise:"))
